@@ -1,10 +1,23 @@
 #!/bin/sh
-# Builds the framework from files on disk only (offline).
-set -e
+# Builds the framework from files on disk only (offline).  Every claimed property
+# (props/Cnn.json) gets its theorem module, its driver and its harness binary built; a property
+# whose parts fail to build does not stop the others (its own check will report it).
 cd "$(dirname "$0")"
 export CARGO_NET_OFFLINE=true
 python3 tools/genlake.py
-[ -f srcfacts/gen.py ] && python3 srcfacts/gen.py all || true
+[ -f srcfacts/gen.py ] && python3 srcfacts/gen.py all
+cp /repo/Cargo.lock harness/core/Cargo.lock 2>/dev/null
 (cd lean && lake build)
-cp /repo/Cargo.lock harness/core/Cargo.lock 2>/dev/null || true
-(cd harness/core && cargo build --offline --bins)
+for f in props/C*.json; do
+  id=$(basename "$f" .json)
+  python3 - "$f" <<'PY' > work_targets.$$ 2>/dev/null
+import json,sys
+c=json.load(open(sys.argv[1]))
+print(" ".join(sorted({r["driver"] for r in c["runs"]})))
+print(" ".join(sorted({r["bin"] for r in c["runs"]})))
+PY
+  drivers=$(sed -n 1p work_targets.$$); bins=$(sed -n 2p work_targets.$$); rm -f work_targets.$$
+  (cd lean && lake build AGV.Props.$id $drivers) || echo "setup: lean targets of $id failed"
+  for b in $bins; do (cd harness/core && cargo build --offline --bin $b) || echo "setup: harness bin $b failed"; done
+done
+exit 0
